@@ -82,7 +82,7 @@ def _shapes(tier, prop=None):
     if tier != "thorough":
         return q
     return q + [dict(spec="triangle", modes=["min"]), dict(spec="pair3", modes=["max"]), dict(spec="far", modes=["max"]),
-                dict(spec="chain3", modes=["min"], start_order="explore"), dict(spec="chain4", modes=["min"]),
+                dict(spec="chain3", modes=["min"], start_order="rev"), dict(spec="chain4", modes=["max"]),
                 dict(spec="unordered", modes=["max"], policy="lifo")]
 
 
